@@ -566,19 +566,43 @@ def leavesAny : List Leaf :=
     fun x => match x with | .map _ => .ok (generic x) | _ => .unsupported,
     fun x => match x with | .nil => .ok .anyNil | _ => .unsupported ]
 
-/-- the slice decoder compiled for `[]uint8` (element-wise): it follows the leaves. A source that is not a list
-is decoded into a single element. -/
+/-- element-wise decoding of a list of numbers into bytes (each element through the `*uint8` decoders) -/
+def bytesOfList : VList → Res (List Nat)
+  | .nil => .ok []
+  | .cons x xs =>
+    match runLeaves (leavesUint .w8) x with
+    | .ok (.uint v) =>
+      (match bytesOfList xs with
+       | .ok bs => .ok (v :: bs)
+       | .err e => .err e
+       | .panic => .panic)
+    | .ok _ => .err .other
+    | .err e => .err e
+    | .panic => .panic
+
+/-- the slice decoder compiled for `[]uint8` (element-wise): it follows the leaves. A list of numbers is decoded
+element by element (`data: [7, 8]` is a legal document for a `[]byte`); a source that is not a list is decoded into
+a single element. (On an error the Go target keeps the elements appended so far – not observable here: the result of
+a failed decode is the error.) -/
 def leafListIntoBytes : Leaf := fun x =>
   match x with
-  | .slice _ => .other 1          -- unmodelled conversion: a list of numbers into a byte slice
+  | .slice xs =>
+    (match bytesOfList xs with
+     | .ok bs => .ok (.bytes bs)
+     | r => toR (match r with | .ok _ => .err .other | .err e => .err e | .panic => .panic))
   | x => match runLeaves (leavesUint .w8) x with
          | .ok (.uint v) => .ok (.bytes [v])
          | r => toR r
 
-/-- the same for `[n]uint8` -/
+/-- the same for `[n]uint8`: a list longer than the array is a value error, a shorter one leaves zeros -/
 def leafListIntoBarr (n : Nat) : Leaf := fun x =>
   match x with
-  | .slice _ => .other 1          -- unmodelled conversion
+  | .slice xs =>
+    if xs.length > n then .other 0
+    else
+      (match bytesOfList xs with
+       | .ok bs => .ok (.barr (bs ++ List.replicate (n - bs.length) 0))
+       | r => toR (match r with | .ok _ => .err .other | .err e => .err e | .panic => .panic))
   | x => if n = 0 then .other 0 else
          match runLeaves (leavesUint .w8) x with
          | .ok (.uint v) => .ok (.barr (v :: List.replicate (n - 1) 0))
